@@ -18,9 +18,9 @@ CHECK_DEADLOCK FALSE
 KERNEL = {"events", "filter-inv", "refsync", "refupdate", "dupkey", "foreign-object"}
 ORDER = {"order-in", "order", "recv-unexplained", "lost-in-fanout", "lost-at-quiescence", "deq-unknown-stage", "stuck-at-quiescence"}
 CLASSES = {
-    "C03": KERNEL | ORDER | {"synced-list-not-from-server", "list-not-applied", "cache-not-current", "relisting-stopped", "ctl-events-differ", "close-hangs", "shutdown-timeout",
+    "C03": KERNEL | ORDER | {"synced-list-not-from-server", "list-not-applied", "read-not-linearizable", "returned-slice-not-owned", "cache-not-current", "relisting-stopped", "ctl-events-differ", "close-hangs", "shutdown-timeout",
                              "ready-before-sync", "publish-before-ready", "api-call-blocks"},
-    "C04": KERNEL | ORDER | {"cache-not-current", "resume-version", "frame-mistranslated", "frame-ignored", "drop-not-full", "drop-unknown",
+    "C04": KERNEL | ORDER | {"read-not-linearizable", "returned-slice-not-owned", "cache-not-current", "resume-version", "frame-mistranslated", "frame-ignored", "drop-not-full", "drop-unknown",
                              "watch-version-unknown", "ctl-events-differ", "stopped-without-cause", "watch-not-reestablished"},
     "C15": KERNEL | {"read-not-linearizable", "operation-not-atomic", "read-error", "returned-slice-not-owned", "list-not-snapshot", "data-race"},
     "C13": {"lists-overlap", "list-too-early", "list-before-consumed-plus-period", "relisting-stopped", "close-hangs", "shutdown-timeout", "goroutine-leak"},
